@@ -477,8 +477,11 @@ oy = rt.Var(other, y); other.intern(y, oy)
 pv = rt.Var(other, p, meta=lmap.map({kw.keyword("private"): True})); other.intern(p, pv)
 ns.add_refer(p, pv)
 chk("a private Var is not referred by add_refer", ns.get_refer(p), None)
+third = rt.Namespace(sym.symbol("c10-replay-c"))
+ty = rt.Var(third, y); third.intern(y, ty)
+ns.add_refer(y, ty)   # the name y is already referred, to a Var of a third namespace (or to a Var the other namespace has since replaced)
 ns.refer_all(other)
-chk("refer_all refers a public Var", ns.get_refer(y), oy)
+chk("refer_all refers a public Var, also under a name that was referred to another Var before", ns.get_refer(y), oy)
 chk("refer_all does not refer a private Var", ns.get_refer(p), None)
 chk("an interned Var shadows a referred one", ns.find(x), v1)
 chk("a referred Var is found when nothing is interned under the name", ns.find(y), oy)
